@@ -9,8 +9,12 @@
 //	writes (W) of receiver fields, and the if/for/switch/return/break/continue structure with those
 //	guard expressions kept verbatim that mention the receiver or ctx.
 //
-// Comments, local renames of non-receiver variables, formatting and pure local computation are
-// normalised away.  Output: a Lean file of string definitions, one per function, which the
+// Normalised away (harmless rewrites must not change a skeleton): comments, formatting, pure local
+// computation, the names of parameters / named results / local variables (printed $1, $2, … in the
+// order of first appearance) and of the context parameter (printed ctx), `x++` vs `x += 1` vs `x = x + 1`, a negated guard with
+// swapped branches (`!c`, `!=`, `>=`, `>` are printed positively), early return vs else (when exactly one branch
+// of an `if` ends the control flow, the statements after it belong to the other branch), and a tag-less
+// `switch` vs the if/else-if chain it abbreviates.  Output: a Lean file of string definitions, one per function, which the
 // hand-written models compare with the skeleton they were written against (`by decide`).
 //
 //	skel -root <repo> -out <lean file> -ns <Namespace> file.go[:Type,...] ...
@@ -33,13 +37,168 @@ import (
 type ex struct {
 	fset *token.FileSet
 	recv string // receiver variable name ("" for plain functions)
+	env  *env
 	b    strings.Builder
+}
+
+// env: what is normalised away inside one function — the name of the context parameter (printed as
+// "ctx") and the names of parameters, named results and locally declared variables (printed as $1, $2, …
+// in the order of their first appearance in the skeleton), so that renaming a local or a parameter, or
+// reordering declarations, is invisible.
+type env struct {
+	ctx    string
+	locals map[string]string // declared names; the number is given when the name is first printed
+	next   int
+}
+
+func newEnv(fd *ast.FuncDecl) *env {
+	en := &env{ctx: "ctx", locals: map[string]string{}}
+	add := func(id *ast.Ident) {
+		if id == nil || id.Name == "_" {
+			return
+		}
+		if _, ok := en.locals[id.Name]; !ok {
+			en.locals[id.Name] = ""
+		}
+	}
+	isCtx := func(t ast.Expr) bool {
+		if se, ok := t.(*ast.SelectorExpr); ok {
+			if pk, ok := se.X.(*ast.Ident); ok && pk.Name == "context" && se.Sel.Name == "Context" {
+				return true
+			}
+		}
+		return false
+	}
+	fields := func(fl *ast.FieldList) {
+		if fl == nil {
+			return
+		}
+		for _, f := range fl.List {
+			for _, n := range f.Names {
+				if isCtx(f.Type) {
+					en.ctx = n.Name
+					continue
+				}
+				add(n)
+			}
+		}
+	}
+	fields(fd.Type.Params)
+	fields(fd.Type.Results)
+	ast.Inspect(fd.Body, func(n ast.Node) bool {
+		switch v := n.(type) {
+		case *ast.AssignStmt:
+			if v.Tok == token.DEFINE {
+				for _, l := range v.Lhs {
+					if id, ok := l.(*ast.Ident); ok {
+						add(id)
+					}
+				}
+			}
+		case *ast.ValueSpec:
+			for _, id := range v.Names {
+				add(id)
+			}
+		case *ast.RangeStmt:
+			if v.Tok == token.DEFINE {
+				if id, ok := v.Key.(*ast.Ident); ok {
+					add(id)
+				}
+				if id, ok := v.Value.(*ast.Ident); ok {
+					add(id)
+				}
+			}
+		case *ast.FuncLit:
+			fieldsOf := func(fl *ast.FieldList) {
+				if fl == nil {
+					return
+				}
+				for _, f := range fl.List {
+					for _, nm := range f.Names {
+						add(nm)
+					}
+				}
+			}
+			fieldsOf(v.Type.Params)
+			fieldsOf(v.Type.Results)
+		}
+		return true
+	})
+	delete(en.locals, en.ctx)
+	return en
+}
+
+func (e *ex) sub() *ex { return &ex{fset: e.fset, recv: e.recv, env: e.env} }
+
+func (e *ex) isCtx(name string) bool {
+	return e.env != nil && name == e.env.ctx || e.env == nil && name == "ctx"
 }
 
 func (e *ex) src(n ast.Node) string {
 	var buf bytes.Buffer
 	printer.Fprint(&buf, e.fset, n)
-	return strings.Join(strings.Fields(buf.String()), " ")
+	s := strings.Join(strings.Fields(buf.String()), " ")
+	if e.env != nil {
+		s = mapIdents(s, func(id string) string {
+			if id == e.env.ctx {
+				return "ctx"
+			}
+			if r, ok := e.env.locals[id]; ok && id != e.recv {
+				if r == "" { // numbered in the order of first appearance in the skeleton
+					e.env.next++
+					r = fmt.Sprintf("$%d", e.env.next)
+					e.env.locals[id] = r
+				}
+				return r
+			}
+			return id
+		})
+	}
+	return s
+}
+
+// mapIdents rewrites every identifier of s that is not a selector (not preceded by '.') and not inside a
+// string literal.
+func mapIdents(s string, f func(string) string) string {
+	var out strings.Builder
+	isStart := func(c byte) bool { return c == '_' || c >= 'a' && c <= 'z' || c >= 'A' && c <= 'Z' }
+	isId := func(c byte) bool { return isStart(c) || c >= '0' && c <= '9' }
+	i := 0
+	for i < len(s) {
+		c := s[i]
+		if c == '"' || c == '`' || c == '\'' {
+			j := i + 1
+			for j < len(s) && s[j] != c {
+				if s[j] == '\\' && c != '`' {
+					j++
+				}
+				j++
+			}
+			if j < len(s) {
+				j++
+			}
+			out.WriteString(s[i:j])
+			i = j
+			continue
+		}
+		if isStart(c) && (i == 0 || !isId(s[i-1])) {
+			j := i
+			for j < len(s) && isId(s[j]) {
+				j++
+			}
+			id := s[i:j]
+			if i > 0 && s[i-1] == '.' {
+				out.WriteString(id)
+			} else {
+				out.WriteString(f(id))
+			}
+			i = j
+			continue
+		}
+		out.WriteByte(c)
+		i++
+	}
+	return out.String()
 }
 
 func (e *ex) emit(s string) {
@@ -75,7 +234,7 @@ func (e *ex) mentions(x ast.Node) bool {
 	found := false
 	ast.Inspect(x, func(n ast.Node) bool {
 		if id, ok := n.(*ast.Ident); ok {
-			if (e.recv != "" && id.Name == e.recv) || id.Name == "ctx" {
+			if (e.recv != "" && id.Name == e.recv) || e.isCtx(id.Name) {
 				found = true
 			}
 		}
@@ -100,7 +259,9 @@ func (e *ex) guard(x ast.Expr) string {
 func replaceIdent(s, from, to string) string {
 	var out strings.Builder
 	i := 0
-	isId := func(c byte) bool { return c == '_' || c >= '0' && c <= '9' || c >= 'a' && c <= 'z' || c >= 'A' && c <= 'Z' }
+	isId := func(c byte) bool {
+		return c == '_' || c >= '0' && c <= '9' || c >= 'a' && c <= 'z' || c >= 'A' && c <= 'Z'
+	}
 	for i < len(s) {
 		if strings.HasPrefix(s[i:], from) && (i == 0 || !isId(s[i-1]) && s[i-1] != '.') &&
 			(i+len(from) == len(s) || !isId(s[i+len(from)])) {
@@ -168,7 +329,7 @@ func (e *ex) expr(x ast.Expr) {
 				return
 			}
 			// ctx.Err(), ctx.Done()
-			if id, ok := sel.X.(*ast.Ident); ok && id.Name == "ctx" {
+			if id, ok := sel.X.(*ast.Ident); ok && e.isCtx(id.Name) {
 				e.emit("ctx." + sel.Sel.Name)
 				return
 			}
@@ -244,8 +405,8 @@ func (e *ex) expr(x ast.Expr) {
 		e.expr(v.X)
 	case *ast.FuncLit:
 		e.emit("func{")
-		sub := &ex{fset: e.fset, recv: e.recv}
-		sub.block(v.Body)
+		sub := e.sub()
+		sub.stmts(withJump(v.Body.List, token.RETURN))
 		e.b.WriteString(sub.b.String())
 		e.b.WriteString("}")
 	}
@@ -273,7 +434,7 @@ func (e *ex) assignTarget(x ast.Expr) {
 }
 
 func (e *ex) nested(open string, f func(sub *ex)) {
-	sub := &ex{fset: e.fset, recv: e.recv}
+	sub := e.sub()
 	f(sub)
 	e.emit(open + "{" + sub.b.String() + "}")
 }
@@ -282,9 +443,220 @@ func (e *ex) block(b *ast.BlockStmt) {
 	if b == nil {
 		return
 	}
-	for _, s := range b.List {
+	e.stmts(b.List)
+}
+
+// withJump makes the implicit jump at the end of a body explicit (`continue` at the end of a loop body, `return`
+// at the end of a function body), so that writing it out or leaving it out gives the same skeleton.
+func withJump(list []ast.Stmt, tok token.Token) []ast.Stmt {
+	if terminates(list) {
+		return list
+	}
+	var j ast.Stmt = &ast.ReturnStmt{}
+	if tok != token.RETURN {
+		j = &ast.BranchStmt{Tok: tok}
+	}
+	return append(append([]ast.Stmt{}, list...), j)
+}
+
+// stmts emits a statement list.  An `if` is put into a canonical form first, so that the usual harmless
+// rewrites are invisible: a negated guard (`!c`, `a != b`, `a >= b`, `a > b`) is printed positively with the
+// branches swapped, and when exactly one branch ends the control flow of the list (return, break, continue,
+// goto, panic) the statements after the `if` belong to the other branch ("early return" = "else").
+// A tag-less `switch` without break/fallthrough is the if/else-if chain it abbreviates.
+func (e *ex) stmts(list []ast.Stmt) {
+	for i, s := range list {
+		switch v := s.(type) {
+		case *ast.IfStmt:
+			if e.ifCanon(v, list[i+1:]) {
+				return
+			}
+			continue
+		case *ast.SwitchStmt:
+			if chain := switchAsIf(v); chain != nil {
+				if v.Init != nil {
+					e.stmt(v.Init)
+				}
+				if e.ifCanon(chain, list[i+1:]) {
+					return
+				}
+				continue
+			}
+		}
 		e.stmt(s)
 	}
+}
+
+func terminates(list []ast.Stmt) bool {
+	if len(list) == 0 {
+		return false
+	}
+	switch v := list[len(list)-1].(type) {
+	case *ast.ReturnStmt:
+		return true
+	case *ast.BranchStmt:
+		return v.Tok != token.FALLTHROUGH
+	case *ast.BlockStmt:
+		return terminates(v.List)
+	case *ast.ExprStmt:
+		if c, ok := v.X.(*ast.CallExpr); ok {
+			if id, ok := c.Fun.(*ast.Ident); ok && id.Name == "panic" {
+				return true
+			}
+		}
+	case *ast.IfStmt:
+		if v.Else == nil {
+			return false
+		}
+		return terminates(v.Body.List) && terminates([]ast.Stmt{v.Else})
+	}
+	return false
+}
+
+// bareJump: the list is a single return / break / continue / goto whose operands involve no synchronisation
+func (e *ex) bareJump(list []ast.Stmt) bool {
+	if len(list) != 1 {
+		return false
+	}
+	switch list[0].(type) {
+	case *ast.ReturnStmt, *ast.BranchStmt:
+		sub := e.sub()
+		sub.stmt(list[0])
+		out := sub.b.String()
+		return out == "return" || out == "break" || out == "continue" || out == "goto"
+	}
+	return false
+}
+
+// canonGuard prints the guard without an outer negation; neg reports that the printed guard is the negation
+// of the original one.
+func (e *ex) canonGuard(x ast.Expr) (string, bool) {
+	switch v := x.(type) {
+	case *ast.ParenExpr:
+		return e.canonGuard(v.X)
+	case *ast.UnaryExpr:
+		if v.Op == token.NOT {
+			g, n := e.canonGuard(v.X)
+			return g, !n
+		}
+	case *ast.BinaryExpr:
+		flip := map[token.Token]token.Token{token.NEQ: token.EQL, token.GEQ: token.LSS, token.GTR: token.LEQ}
+		if op, ok := flip[v.Op]; ok {
+			c := *v
+			c.Op = op
+			return e.guard(&c), true
+		}
+	}
+	return e.guard(x), false
+}
+
+// ifCanon emits `v` followed by `rest`; it reports whether it consumed `rest`.
+func (e *ex) ifCanon(v *ast.IfStmt, rest []ast.Stmt) bool {
+	if v.Init != nil {
+		e.stmt(v.Init)
+	}
+	e.expr(v.Cond)
+	thenB := v.Body.List
+	var elseB []ast.Stmt
+	if v.Else != nil {
+		if b, ok := v.Else.(*ast.BlockStmt); ok {
+			elseB = b.List
+		} else {
+			elseB = []ast.Stmt{v.Else}
+		}
+	}
+	consumed := false
+	if len(rest) > 0 {
+		tt, te := terminates(thenB), terminates(elseB)
+		switch {
+		case !tt && !te && e.bareJump(rest):
+			// `if c {A}; return`  =  `if c {A; return} else {return}`: a lone jump after the `if` is part of both branches
+			thenB = append(append([]ast.Stmt{}, thenB...), rest...)
+			elseB = append(append([]ast.Stmt{}, elseB...), rest...)
+			consumed = true
+		case tt && !te:
+			elseB = append(append([]ast.Stmt{}, elseB...), rest...)
+			consumed = true
+		case te && !tt:
+			thenB = append(append([]ast.Stmt{}, thenB...), rest...)
+			consumed = true
+		case tt && te:
+			consumed = true // unreachable statements
+		}
+	}
+	g, neg := e.canonGuard(v.Cond)
+	if neg {
+		thenB, elseB = elseB, thenB
+	}
+	e.nested("if("+g+")", func(sub *ex) { sub.stmts(thenB) })
+	if len(elseB) > 0 {
+		e.nested("else", func(sub *ex) { sub.stmts(elseB) })
+	}
+	return consumed
+}
+
+// switchAsIf: `switch { case a, b: A; case c: B; default: C }` as if a || b {A} else if c {B} else {C};
+// `switch x { case v: … }` with an identifier x compares x == v; nil if the switch has another kind of tag, a break or a fallthrough.
+func switchAsIf(v *ast.SwitchStmt) *ast.IfStmt {
+	// a tag that is a plain identifier can be compared once per case without changing anything
+	var tag *ast.Ident
+	if v.Tag != nil {
+		id, ok := v.Tag.(*ast.Ident)
+		if !ok {
+			return nil
+		}
+		tag = id
+	}
+	bad := false
+	ast.Inspect(v.Body, func(n ast.Node) bool {
+		switch b := n.(type) {
+		case *ast.BranchStmt:
+			if (b.Tok == token.BREAK && b.Label == nil) || b.Tok == token.FALLTHROUGH {
+				bad = true
+			}
+		case *ast.ForStmt, *ast.RangeStmt, *ast.SelectStmt, *ast.FuncLit:
+			return false // a break in there does not concern this switch
+		case *ast.SwitchStmt:
+			return b == v || false
+		}
+		return !bad
+	})
+	if bad || len(v.Body.List) == 0 {
+		return nil
+	}
+	var def []ast.Stmt
+	hasDef := false
+	var clauses []*ast.CaseClause
+	for _, c := range v.Body.List {
+		cc := c.(*ast.CaseClause)
+		if len(cc.List) == 0 {
+			def, hasDef = cc.Body, true
+		} else {
+			clauses = append(clauses, cc)
+		}
+	}
+	if len(clauses) == 0 {
+		return nil
+	}
+	var tail ast.Stmt
+	if hasDef {
+		tail = &ast.BlockStmt{List: def}
+	}
+	for i := len(clauses) - 1; i >= 0; i-- {
+		cc := clauses[i]
+		mk := func(x ast.Expr) ast.Expr {
+			if tag != nil {
+				return &ast.BinaryExpr{X: tag, Op: token.EQL, Y: x}
+			}
+			return x
+		}
+		cond := mk(cc.List[0])
+		for _, x := range cc.List[1:] {
+			cond = &ast.BinaryExpr{X: cond, Op: token.LOR, Y: mk(x)}
+		}
+		tail = &ast.IfStmt{Cond: cond, Body: &ast.BlockStmt{List: cc.Body}, Else: tail}
+	}
+	return tail.(*ast.IfStmt)
 }
 
 func (e *ex) stmt(s ast.Stmt) {
@@ -299,6 +671,12 @@ func (e *ex) stmt(s ast.Stmt) {
 		}
 		e.emit("Send(" + t + ")")
 	case *ast.AssignStmt:
+		if v.Tok != token.ASSIGN && v.Tok != token.DEFINE {
+			// x op= e: the same reads and writes as x = x op e (and x++ for op= 1)
+			for _, l := range v.Lhs {
+				e.expr(l)
+			}
+		}
 		for _, r := range v.Rhs {
 			e.expr(r)
 		}
@@ -332,14 +710,7 @@ func (e *ex) stmt(s ast.Stmt) {
 	case *ast.BlockStmt:
 		e.block(v)
 	case *ast.IfStmt:
-		if v.Init != nil {
-			e.stmt(v.Init)
-		}
-		e.expr(v.Cond)
-		e.nested("if("+e.guard(v.Cond)+")", func(sub *ex) { sub.block(v.Body) })
-		if v.Else != nil {
-			e.nested("else", func(sub *ex) { sub.stmt(v.Else) })
-		}
+		e.ifCanon(v, nil)
 	case *ast.ForStmt:
 		if v.Init != nil {
 			e.stmt(v.Init)
@@ -348,14 +719,14 @@ func (e *ex) stmt(s ast.Stmt) {
 			if v.Cond != nil {
 				sub.expr(v.Cond)
 			}
-			sub.block(v.Body)
+			sub.stmts(withJump(v.Body.List, token.CONTINUE))
 			if v.Post != nil {
 				sub.stmt(v.Post)
 			}
 		})
 	case *ast.RangeStmt:
 		e.expr(v.X)
-		e.nested("range", func(sub *ex) { sub.block(v.Body) })
+		e.nested("range", func(sub *ex) { sub.stmts(withJump(v.Body.List, token.CONTINUE)) })
 	case *ast.SwitchStmt:
 		if v.Init != nil {
 			e.stmt(v.Init)
@@ -372,22 +743,14 @@ func (e *ex) stmt(s ast.Stmt) {
 					}
 					lab = "case(" + strings.Join(gs, ",") + ")"
 				}
-				sub.nested(lab, func(s2 *ex) {
-					for _, st := range cc.Body {
-						s2.stmt(st)
-					}
-				})
+				sub.nested(lab, func(s2 *ex) { s2.stmts(cc.Body) })
 			}
 		})
 	case *ast.TypeSwitchStmt:
 		e.nested("typeswitch", func(sub *ex) {
 			for _, c := range v.Body.List {
 				cc := c.(*ast.CaseClause)
-				sub.nested("case", func(s2 *ex) {
-					for _, st := range cc.Body {
-						s2.stmt(st)
-					}
-				})
+				sub.nested("case", func(s2 *ex) { s2.stmts(cc.Body) })
 			}
 		})
 	case *ast.SelectStmt:
@@ -396,15 +759,11 @@ func (e *ex) stmt(s ast.Stmt) {
 				cc := c.(*ast.CommClause)
 				lab := "default"
 				if cc.Comm != nil {
-					arm := &ex{fset: e.fset, recv: e.recv}
+					arm := e.sub()
 					arm.stmt(cc.Comm)
 					lab = "arm[" + arm.b.String() + "]"
 				}
-				sub.nested(lab, func(s2 *ex) {
-					for _, st := range cc.Body {
-						s2.stmt(st)
-					}
-				})
+				sub.nested(lab, func(s2 *ex) { s2.stmts(cc.Body) })
 			}
 		})
 	case *ast.LabeledStmt:
@@ -466,8 +825,8 @@ func main() {
 			if len(want) > 0 && !want[typ] && !want[fd.Name.Name] {
 				continue
 			}
-			e := &ex{fset: fset, recv: recv}
-			e.block(fd.Body)
+			e := &ex{fset: fset, recv: recv, env: newEnv(fd)}
+			e.stmts(withJump(fd.Body.List, token.RETURN))
 			name := fd.Name.Name
 			if typ != "" {
 				name = typ + "_" + name
